@@ -15,6 +15,11 @@
 // The empty list is built by `fresh()` exactly as `SkipList::new()` builds it EXCEPT that the header tower has 3 levels
 // instead of SKIPLIST_MAXLEVEL = 32 (the 32-iteration initialisation forces unwind 33 on every loop of the harness); with
 // heights <= 3 the code may only touch header levels 0..=2 - an access above would be an index panic, which Kani reports.
+// STATUS (measured on the pinned tree, 16 shared cores): NO harness of this file finished within 240 s - CBMC times out
+// in symbolic execution even for ONE concrete state (three real `insert` calls) plus one operation with symbolic arguments
+// (nested Vec<Option<SkipListNode>> / Vec<SkipListLevel> / Vec<u8> arena with `expect` on every access).  The harnesses
+// are therefore tier `thorough`, are NOT in any baseline and prove nothing so far; they are kept as the statement of the
+// bounded check to run with a larger budget.  The contracts are backed by the replay driver only.
 // NOT REACHED by Kani (measured): the same harnesses over SYMBOLIC states - 3 inserts of symbolic (member, score) with
 // symbolic heights 1..=3, or with fixed heights, or 2 inserts with heights 1..=2 - did not finish: symbolic execution alone
 // took 85 .. 295 s and the solver ran out of the 400 s budget (one run reached 48 GB of memory and was killed).  Symbolic
@@ -145,7 +150,7 @@ mod verif_kani_skiplist {
     }
     // @harness: skiplist_insert_links_at_sorted_position
     // @bound: concrete states S12 (2 elements), S1 / S2 / S3 after one removal (2 elements, a freed slot); the inserted (member, score) symbolic: the one or two absent members x 6 scores; heights 1, 2, 3; unwind 6
-    // @tier: quick
+    // @tier: thorough
     // @complete: false
     // @props: C01
     #[kani::proof]
@@ -179,7 +184,7 @@ mod verif_kani_skiplist {
     }
     // @harness: skiplist_remove_with_score_unlinks_exactly_the_match
     // @bound: concrete states S1, S2, S3 (3 elements); the (member, score) to remove symbolic: 4 members x 6 scores, present or not; if removed, re-inserted with any of the 6 scores; unwind 6
-    // @tier: quick
+    // @tier: thorough
     // @complete: false
     // @props: C01
     #[kani::proof]
@@ -205,7 +210,7 @@ mod verif_kani_skiplist {
     }
     // @harness: skiplist_rank_is_the_position
     // @bound: concrete states S1, S2, S3 (3 elements) and S1 after one removal; the (member, score) asked for symbolic: 4 members x 6 scores; unwind 6
-    // @tier: quick
+    // @tier: thorough
     // @complete: false
     // @props: C01
     #[kani::proof]
@@ -245,7 +250,7 @@ mod verif_kani_skiplist {
     }
     // @harness: skiplist_range_is_the_subsequence
     // @bound: concrete states S1, S3 (3 elements) and S2 after one removal (2 elements); start, end symbolic in 0..=5 and usize::MAX; unwind 6
-    // @tier: quick
+    // @tier: thorough
     // @complete: false
     // @props: C01
     #[kani::proof]
@@ -259,7 +264,7 @@ mod verif_kani_skiplist {
 
     // @harness: skiplist_rev_range_is_the_reversed_subsequence
     // @bound: concrete states S2, S3 (3 elements) and S1 after one removal (2 elements); start, end symbolic in 0..=5 and usize::MAX; unwind 6
-    // @tier: quick
+    // @tier: thorough
     // @complete: false
     // @props: C01
     #[kani::proof]
